@@ -27,6 +27,10 @@ type Engine interface {
 
 // Engines maps engine names to engines; Serves maps property ids to the engine
 // that decides them.
+// RaceMode: the binary was built with -race and engines restrict themselves to
+// configurations whose harness is free of (hidden-sync) races.
+var RaceMode bool
+
 var Engines = map[string]Engine{}
 var Serves = map[string]string{}
 
